@@ -90,7 +90,7 @@ chk("C06", "model_checking",
     "behaviour is executed with the real Client and real Server on a paused single-threaded runtime (updates injected at the recorded "
     "source-call index, serials at 0 and at wrap-around); long randomly scheduled connections are recorded at the PayloadSource/"
     "PayloadTarget boundary and validated step by step by Trace_RtrSession with all invariants on.",
-    "Payload universe of 5 items; PDU delivery folded into the send action; legacy cache played by the harness; single-threaded schedules.",
+    "Payload universe of 6 items (an announced ASPA without providers included); the source lists its items in either order; PDU delivery folded into the send action; legacy cache played by the harness; single-threaded schedules.",
     "TLA+ spec (RtrSession) model-checked by TLC incl. liveness; behaviours replayed into real client+server; impl->spec trace validation",
     "DESIGN.md §3 C06")
 
@@ -100,7 +100,7 @@ chk("C08", "model_checking",
     "(well-formed, bad length, unknown type, version switch / too high, error PDU), every fragmentation and notify interleaving: "
     "responses without notifications = the answers determined by the query bytes, in order, nothing lost, notifications only between "
     "responses, and liveness. For every model state a shortest environment script is run against the real Server on a controlled "
-    "socket (paused current_thread runtime) and its output compared; all socket reads/writes of those runs and of random chunkings "
+    "socket (paused current_thread runtime, the source listing its items in either order) and its output compared; all socket reads/writes of those runs and of random chunkings "
     "with notify storms are validated by Trace_RtrServerConn.",
     "Single-threaded scheduler; a response is written without intervening reads; malformed queries are given exactly the bytes the server consumes.",
     "TLA+ spec (RtrServerConn) model-checked by TLC incl. liveness; state-cover scripts replayed into the real server; impl->spec trace validation",
@@ -136,15 +136,15 @@ chk("C04", "fault_enumeration",
     "and picks strict or relaxed mode; the decoder has exactly the outcomes value and error (no panic, no blow-up), every run plan "
     "terminates, and the capture/re-decode table must satisfy CapImpliesRed (an accessor never re-decodes in a stricter mode than the "
     "region was captured in). TLC enumerates every plan and table cell; each is replayed against all 11 entry points on real objects "
-    "(built with real keys + the repository's captured files) with every accessor, iterator, validator and re-encoder of whatever "
-    "decodes, under panic capture, an allocation meter and a watchdog. Random multi-mutation fuzz runs are validated by Trace_Decoders.",
+    "(built with real keys, zero-numbered objects included, + the repository's captured files) with every accessor, iterator, validator and re-encoder - "
+    "top-level and field-by-field - of whatever decodes, under panic capture, an allocation meter and a watchdog. Random multi-mutation fuzz runs are validated by Trace_Decoders.",
     "Fault enumeration over mutation plans, not all byte strings; budgets instead of exact complexity bounds; memory safety itself is "
     "outside TLC's reach.",
     "TLA+ spec (Decoders) model-checked by TLC (safety + liveness); spec->impl replay of every adversary plan with panic/allocation/time guards; impl->spec trace validation of fuzz runs",
     "DESIGN.md §3 C04")
 
 chk("C05", "model_checking",
-    "BuildDecode.tla is the builder-input machine (9 object kinds x serial forms x validity windows straddling the UTCTime/"
+    "BuildDecode.tla is the builder-input machine (9 object kinds x serial forms incl. zero x slice or length-less iterator feed x validity windows straddling the UTCTime/"
     "GeneralizedTime boundaries x resource shapes x URI forms x every sequence of <= 3 list items, duplicates included) plus the captured-layout "
     "discipline and, over X509Time's encoder model, the expected time tags/characters and minimal serial INTEGERs; TbsBuilder.tla is the "
     "certificate builder as a state machine (TbsCert::new + 18 setters, SkiTracksKey, OneField) and SobBuilder.tla the signed-object "
@@ -185,7 +185,8 @@ chk("C14", "model_checking",
 chk("C01", "model_checking",
     "CertChain.tla states acceptance of TA / CA / EE / router certificates and the validated resources (missing, inherit, blocks; "
     "Refuse: covered or rejected, Trim: intersection); TLC checks that resources never grow along a chain and that every combination "
-    "of the identity facets (signing key, AKI, SKI validity, signature-bit / TBS-byte tamper, notBefore/notAfter vs now) other than the "
+    "of the identity facets (signing key, AKI, SKI validity, signature-bit / TBS-byte tamper, notBefore/notAfter vs an evaluation instant "
+    "on or strictly between representable certificate times; trust anchors inheriting in any one family; owned and by-reference TA entry points) other than the "
     "conforming one rejects. Every behaviour (44k resource chains, 4.5k identity variants, and every issuer/claim pair of sets over a "
     "small line from C03's model) is realised with real RSA keys and DER (SKI patched and re-signed, bits flipped), decoded and "
     "validated by the library; verdict and validated resources are compared at each step. Random links with large full-width "
@@ -201,7 +202,8 @@ chk("C02", "fault_enumeration",
     "issuer, coverage of ROA prefixes / ASPA customer with no IP and no inheritance, CRL callback) and a machine applying up to 2/3 "
     "deviations to a conforming ROA, ASPA, manifest or generic object whose signed attributes total 107/127/128/129/255/256/257 bytes; "
     "TLC checks single-point rejection and monotonicity. Every state is assembled byte by byte by the harness' own RFC 5652/6488 "
-    "encoder with real keys and certificates and run through strict decode + validate/process; random ROAs/ASPAs against random "
+    "encoder with real keys and certificates and run through decode + validate/process in strict and in relaxed mode, the CRL callback being a "
+    "revocation list whose verdict depends on the certificate shown; random ROAs/ASPAs against random "
     "full-width EE resources are validated by Trace_SignedObj.",
     "Decision structure enumerated, bytes sampled (one flipped bit per tampered field); wall clock for process(); crypto through verdicts only.",
     "TLA+ spec (SignedObj) model-checked by TLC; every state realised by an independent CMS encoder; impl->spec trace validation of coverage",
@@ -210,7 +212,7 @@ chk("C02", "fault_enumeration",
 chk("C10", "fault_enumeration",
     "CmsMsg.tla states acceptance of an RFC 6492/8181 signed message against a peer identity key as the conjunction of 13 facets "
     "(required signed attributes, digest, signature over all signed attributes incl. additional ones, signer id, EE certificate signed "
-    "by the peer / current / not a CA / AKI absent or the peer's, CRL signed by the peer / current / AKI / not listing the EE "
+    "by the peer / current / not a CA (Basic Constraints absent or present with cA false) / AKI absent or the peer's, CRL signed by the peer / current / AKI / not listing the EE "
     "certificate - in any position of an unordered list, validation key) with a machine applying up to 2/3 deviations to conforming "
     "messages whose signed attributes total 107..300 bytes (127-129, 255-257 included); TLC checks single-point rejection. Every state "
     "is assembled by the harness' own CMS/X.509/CRL encoder with real keys and validated by the library (relaxed and strict decode); "
